@@ -53,7 +53,8 @@ class Case:
         self.name, self.alts, self.nests, self.what, self.names, self.alphas = name, alts, nests, what, names, alphas
 
     def param_names(self):
-        return [f'V{i}' for i in self.alts] + [f'mu{k}' for k in range(len(self.nests))]
+        extra = ['mu'] if self.what.startswith('cnlmu(alpha') else []
+        return [f'V{i}' for i in self.alts] + [f'mu{k}' for k in range(len(self.nests))] + extra
 
     def pair(self, avail, i, values=None):
         """the two expressions that must be equal for alternative i"""
@@ -78,6 +79,10 @@ class Case:
             return models.cnl(V, av, mk('cnl', mus(), alphas=al), ch), models.nested(V, av, mk('nested', mus()), ch)
         if w == 'nested_mev_mu(mu=1) == nested':
             return models.nested_mev_mu(V, av, mk('nested', mus()), ch, num(1.0)), models.nested(V, av, mk('nested', mus()), ch)
+        if w == 'cnlmu(alpha in {0,1}) == nested_mev_mu':
+            al = [{j: 1.0 for j in n} for n in self.nests]
+            return (models.cnlmu(V, av, mk('cnl', mus(), alphas=al), ch, sym_beta('mu', val('mu'))),
+                    models.nested_mev_mu(V, av, mk('nested', mus()), ch, sym_beta('mu', val('mu'))))
         if w == 'cnlmu(mu=1) == cnl':
             return (models.cnlmu(V, av, mk('cnl', mus(), alphas=self.alphas), ch, num(1.0)),
                     models.cnl(V, av, mk('cnl', mus(), alphas=self.alphas), ch))
@@ -116,6 +121,8 @@ def cases(tier):
          Case('m3-reordered', A3, [(7, 3), (1,)], 'nested_mev_mu(mu=1) == nested'),
          Case('m3-alone', A3, [(7, 1)], 'nested_mev_mu(mu=1) == nested'),
          Case('cm3-overlap', A3, [(1, 3), (1, 7)], 'cnlmu(mu=1) == cnl', alphas=al2),
+         Case('cmu3-two', A3, [(7, 3), (1,)], 'cnlmu(alpha in {0,1}) == nested_mev_mu'),
+         Case('cmu3-alone', A3, [(7, 1)], 'cnlmu(alpha in {0,1}) == nested_mev_mu'),
          Case('l3-nested', A3, [(7, 3), (1,)], 'legacy nested == nest objects'),
          Case('l3-cnl', A3, [(1, 3), (1, 7)], 'legacy cnl == nest objects', alphas=al2),
          Case('names-equal', A3, [(7,), (1, 3)], 'named nests == unnamed nests', names={0: 'dup', 1: 'dup'}),
@@ -123,7 +130,8 @@ def cases(tier):
          Case('g3-partition', A3, [(7, 3), (1,)], 'generating'),
          Case('g3-one-nest', A3, [(1, 3, 7)], 'generating'),
          Case('g3-alone', A3, [(3, 1)], 'generating'),
-         Case('g3-names', A3, [(7,), (3, 1)], 'generating', names={0: 'nest_2'})]
+         Case('g3-names', A3, [(7,), (3, 1)], 'generating', names={0: 'nest_2'}),
+         Case('g3-two-nests-alone', A3, [(7,), (3,)], 'generating')]
     if tier == 'thorough':
         C += [Case('n4-two', A4, [(9, 1), (7, 3)], 'nested(mu=1) == logit'),
               Case('c4-two', A4, [(9, 1), (7, 3)], 'cnl(alpha in {0,1}) == nested'),
@@ -138,7 +146,7 @@ def check_case(c, case: Case, avail):
     obs = []
     symx.reset_tokens()
     symengine.install()
-    pos = [f'mu{k}' for k in range(8)]
+    pos = [f'mu{k}' for k in range(8)] + ['mu']
     if case.what == 'generating':
         G, lg = case.generating(avail)
         Gt = evaluate(G)
